@@ -30,6 +30,10 @@ type Cfg struct {
 	MaxBatchSize    int64
 	HotKeyLimit     int32
 	L0Tables        int
+	// HotBuckets > 0 enables hot/cold value-log bucket routing (HotRing on, that many
+	// hot buckets, a key becomes hot after HotAfter writes).
+	HotBuckets int
+	HotAfter   int32
 }
 
 // GenCfg draws a configuration.
@@ -80,6 +84,20 @@ func (c Cfg) Options(dir string, fs vfs.FS) *NoKV.Options {
 	o.ValueLogMaxEntries = 100000
 	o.HotRingEnabled = false
 	o.ValueLogHotRingOverride = false
+	if c.HotBuckets > 0 && o.ValueLogBucketCount > 1 {
+		// hot/cold routing as in the default options, with a small hotness threshold
+		o.HotRingEnabled = true
+		o.HotRingRotationInterval = 0
+		o.ValueLogHotRingOverride = true
+		o.ValueLogHotRingRotationInterval = 0
+		o.ValueLogHotRingWindowSlots = 0
+		o.HotRingWindowSlots = 0
+		o.ValueLogHotBucketCount = c.HotBuckets
+		o.ValueLogHotKeyThreshold = c.HotAfter
+		if o.ValueLogHotKeyThreshold <= 0 {
+			o.ValueLogHotKeyThreshold = 2
+		}
+	}
 	o.WriteHotKeyLimit = c.HotKeyLimit
 	o.HotWriteBurstThreshold = 0
 	o.EnableWALWatchdog = false
@@ -140,7 +158,7 @@ type Maint struct {
 }
 
 // MaintKinds lists the kinds GenMaint draws from.
-var MaintKinds = []string{"rotate", "rotate", "compact", "compact", "once", "l0l0", "rewrite", "gc"}
+var MaintKinds = []string{"rotate", "rotate", "compact", "drain", "drain", "once", "l0l0", "rewrite", "gc"}
 
 // GenMaint draws a maintenance step (without reopen; reopen is a history-level op).
 func GenMaint(t *rapid.T) Maint {
@@ -163,6 +181,56 @@ func DoMaint(db *NoKV.DB, m Maint, r *pbt.Rec) (string, error) {
 		}
 		r.Label("maint:flush")
 		return "flush", nil
+	case "rotate-async":
+		// seal the memtable without waiting: several flushes may be pending at once
+		l.Rotate()
+		r.Label("maint:rotate-async")
+		return "rotate-async", nil
+	case "waitflush":
+		if !l.VerifWaitFlush(20 * time.Second) {
+			return "", errors.New("flush did not finish within 20s")
+		}
+		return "", nil
+	case "drain":
+		// layout-aware: compact whatever is there - L0 first, else drain/merge the first
+		// level that has ingest tables, else a regular compaction of the first non-empty level
+		lay := l.VerifLayout()
+		level, mode := -1, 0
+		for _, ti := range lay {
+			if ti.Level == 0 {
+				level, mode = 0, 0
+				break
+			}
+		}
+		if level < 0 {
+			for _, ti := range lay {
+				if ti.Ingest {
+					level, mode = ti.Level, 1+m.B%2
+					break
+				}
+			}
+		}
+		if level < 0 {
+			for _, ti := range lay {
+				if ti.Level < 6 {
+					level, mode = ti.Level, 0
+					break
+				}
+			}
+		}
+		if level < 0 {
+			return "", nil
+		}
+		err := l.VerifCompact(level, mode)
+		if err == nil {
+			lab := fmt.Sprintf("compact:L%d/mode%d", level, mode)
+			r.Label("maint:" + lab)
+			return lab, nil
+		}
+		if errors.Is(err, utils.ErrFillTables) {
+			return "", nil
+		}
+		return "", fmt.Errorf("compaction L%d mode %d failed: %v", level, mode, err)
 	case "compact":
 		// A selects the level (0..6), B the ingest mode.
 		level := m.A % 7
